@@ -184,3 +184,25 @@ def cia_call(fn, a):
     with warnings.catch_warnings():
         warnings.simplefilter("ignore")
         return fn(a["incoming_type"], a["required_type"])
+
+
+# ---- _compare_single_annotated_type: only one side is Annotated[T, ...] - its primary type T decides ---------------------
+compare_single_annotated = Contract(
+    f"{F}::_compare_single_annotated_type", params={"annotated_type": TypeV, "other_type": TypeV, "memo": TObj}, returns=TBool,
+    raises=[("ValueError", lambda S, a: S.len(_members(S, a.annotated_type)) == 0)],
+    ensures=lambda S, a, r, post: {
+        "the primary type of the Annotated side against the other side, in this direction": S.iff(
+            r, _compat(S, _members(S, a.annotated_type)[0], _as_obj(S, a.other_type), a.memo)),
+    },
+    note="ValueError (nothing to unpack) only for a type without arguments - Annotated always has at least two",
+)
+SINGLE_ANN = [is_type_compatible, get_args_c, compare_single_annotated]
+
+
+def csa_gen(rng, tier):
+    from typing import Annotated
+    from pipefunc.typing import Array, TypeCheckMemo
+    memo = TypeCheckMemo(globals={}, locals={})
+    ann = [Annotated[int, "m"], Annotated[bool, "x", "y"], Annotated[list[int], 1], Array[int], Array[str], list[int], dict[str, int]]
+    for _ in range(300 if tier == "quick" else 3000):
+        yield {"annotated_type": rng.choice(ann), "other_type": rng.choice(_pool()), "memo": memo}
